@@ -8,7 +8,7 @@
    type (in particular for binary64 with its roundings); theorems over `ROps` are statements in
    exact real arithmetic. *)
 From Coq Require Import List Arith Bool Lia Reals Sorted.
-From SC Require Import Base.Num C03.Model C03.ProofsBase C03.ProofsAlg C03.ProofsRed C03.ProofsOrd.
+From SC Require Import Base.Num C03.Model C03.ProofsBase C03.ProofsAlg C03.ProofsRed C03.ProofsOrd C03.ProofsVec C03.ProofsNorm.
 Import ListNotations.
 Local Open Scope nat_scope.
 
@@ -465,3 +465,168 @@ Theorem C03_exact_eq_R : forall (a b : dm R) (eps : R), wf a -> wf b -> nrows a 
   (eq_dm ROps eps a b = true <->
    forall r c, r < nrows a -> c < ncols a -> (Rabs (get ROps a r c - get ROps b r c) <= eps)%R).
 Proof. exact eq_dm_R. Qed.
+
+(* ================= BaseVector arithmetic, constant vectors / matrices, from_row_vector ================= *)
+
+(* `entrywise2 g a b v` : v has the length of a and its i-th entry is g a_i b_i;
+   `entrywise1 g a v`   : v has the length of a and its i-th entry is g a_i  (both for every default of nth).
+   For every scalar type (so also binary64 with its roundings): add/sub/mul/div of two vectors are rejected
+   exactly when the lengths differ and are otherwise the entrywise operation; the _scalar forms are the
+   entrywise operation with the scalar on the right; fill is constant; zeros / ones are the constant
+   matrices; from_row_vector v is the well-formed 1 x n matrix whose (0,j) entry is v_j, and to_row_vector
+   undoes it. *)
+Theorem C03_vector_ops_elementwise : forall (T : Type) (K : Ops T) (a b : list T) (x : T) (n k : nat),
+  ((vadd K a b = None <-> length a <> length b) /\ (vsub K a b = None <-> length a <> length b) /\
+   (vmul K a b = None <-> length a <> length b) /\ (vdiv K a b = None <-> length a <> length b)) /\
+  (length a = length b ->
+     exists s d p q,
+       vadd K a b = Some s /\ vsub K a b = Some d /\ vmul K a b = Some p /\ vdiv K a b = Some q /\
+       entrywise2 (oadd K) a b s /\ entrywise2 (osub K) a b d /\
+       entrywise2 (omul K) a b p /\ entrywise2 (odiv K) a b q) /\
+  (entrywise1 (fun v => oadd K v x) a (vadd_scalar K a x) /\ entrywise1 (fun v => osub K v x) a (vsub_scalar K a x) /\
+   entrywise1 (fun v => omul K v x) a (vmul_scalar K a x) /\ entrywise1 (fun v => odiv K v x) a (vdiv_scalar K a x)) /\
+  (length (vfill n x) = n /\ forall d i, i < n -> nth i (vfill n x) d = x) /\
+  (shape (zeros K n k) = (n, k) /\ shape (ones K n k) = (n, k) /\ wf (zeros K n k) /\ wf (ones K n k) /\
+   forall r c, r < n -> c < k -> get K (zeros K n k) r c = o0 K /\ get K (ones K n k) r c = o1 K) /\
+  (shape (from_row_vector a) = (1, length a) /\ wf (from_row_vector a) /\
+   from_row_vector a = row_vector_from_vec a /\
+   (forall j, get K (from_row_vector a) 0 j = nth j a (o0 K)) /\
+   to_row_vector K (from_row_vector a) = a).
+Proof.
+  intros T K a b x n k.
+  split; [exact (vbinary_none_iff K a b)|]. split; [exact (vbinary_spec K a b)|].
+  split; [exact (conj (vadd_scalar_spec K a x) (conj (vsub_scalar_spec K a x)
+                  (conj (vmul_scalar_spec K a x) (vdiv_scalar_spec K a x))))|].
+  split; [exact (vfill_spec n x)|]. split; [exact (zeros_ones_spec K n k) | exact (from_row_vector_spec K a)].
+Qed.
+
+(* the entrywise characterisation determines the result (nothing else satisfies it) *)
+Theorem C03_vector_entrywise_unique : forall (T : Type) (g : T -> T) (a v : list T),
+  entrywise1 g a v -> v = map g a.
+Proof. intros T. exact (@entrywise1_unique T). Qed.
+
+(* ================= norms over R ================= *)
+
+(* `rpow x y` is x^y for x >= 0 and y <> 0: 0 at x = 0 and the standard library's Rpower x y = exp (y ln x)
+   for x > 0 — what the code's powf computes there; for a natural y = n >= 1 it is the ordinary power x^n.
+   Vec::norm: order +inf is the largest |v_i| (a bound that is attained), order -inf the smallest, a finite
+   order p <> 0 (in particular every p >= 1) is (sum_i |v_i|^p)^(1/p), which is non-negative and zero
+   exactly for the zero vector; p = 1 is the sum of absolute values and p = 2 the Euclidean norm2. *)
+Theorem C03_vector_norms : forall (a : list R) (p : R),
+  (a = [] -> vnorm_pinf ROps a = None /\ vnorm_ninf ROps a = None) /\
+  (a <> [] ->
+     (exists v, vnorm_pinf ROps a = Some v /\
+        (forall i, i < length a -> (Rabs (nth i a 0) <= v)%R) /\
+        (exists i, i < length a /\ Rabs (nth i a 0%R) = v)) /\
+     (exists v, vnorm_ninf ROps a = Some v /\
+        (forall i, i < length a -> (v <= Rabs (nth i a 0))%R) /\
+        (exists i, i < length a /\ Rabs (nth i a 0%R) = v))) /\
+  (p <> 0%R ->
+     vnorm_p ROps a p = rpow (rsum (length a) (fun i => rpow (Rabs (nth i a 0%R)) p)) (1 / p)%R /\
+     (0 <= vnorm_p ROps a p)%R /\
+     (vnorm_p ROps a p = 0%R <-> forall i, i < length a -> nth i a 0%R = 0%R)) /\
+  (forall n, 0 < n ->
+     vnorm_p ROps a (INR n) = rpow (rsum (length a) (fun i => (Rabs (nth i a 0) ^ n)%R)) (1 / INR n)%R) /\
+  vnorm_p ROps a 1%R = rsum (length a) (fun i => Rabs (nth i a 0%R)) /\
+  vnorm_p ROps a 2%R = vnorm2 ROps a /\
+  vnorm2 ROps a = sqrt (rsum (length a) (fun i => (nth i a 0 ^ 2)%R)).
+Proof.
+  intros a p.
+  split; [intros ->; exact vnorm_inf_nil|].
+  split; [intros H; exact (conj (vnorm_pinf_spec a H) (vnorm_ninf_spec a H))|].
+  split; [intros H; exact (conj (vnorm_p_formula a p H) (conj (vnorm_p_nonneg a p H) (vnorm_p_zero_iff a p H)))|].
+  split; [exact (vnorm_p_nat a)|]. split; [exact (vnorm_p_1 a)|]. split; [exact (vnorm_p_2 a) | exact (vnorm2_def a)].
+Qed.
+
+Theorem C03_rpow_is_power : forall (x y : R) (n : nat),
+  (0 <= rpow x y)%R /\ (rpow x y = 0%R <-> x = 0%R) /\ ((0 < x)%R -> rpow x y = Rpower x y) /\
+  ((0 <= x)%R -> 0 < n -> rpow x (INR n) = (x ^ n)%R) /\ ((0 <= x)%R -> rpow x (1 / 2)%R = sqrt x) /\
+  (y <> 0%R -> opow ROps x y = rpow x y) /\ opow ROps x 0%R = 1%R.
+Proof.
+  intros x y n. split; [exact (rpow_nonneg x y)|]. split; [exact (rpow_zero_iff x y)|].
+  split; [exact (rpow_pos_Rpower x y)|]. split; [exact (rpow_INR x n)|]. split; [exact (rpow_half x)|].
+  split; [exact (opow_R x y) | exact (opow_R_0 x)].
+Qed.
+
+(* DenseMatrix::norm of a finite order on the logical view: the same formula as the vector norm with the
+   double sum over rows and columns (independent of the storage order; invariant under transposition) *)
+Theorem C03_matrix_norm_p_view : forall (m : dm R) (p : R), wf m -> p <> 0%R ->
+  norm_p ROps m p
+  = rpow (rsum (nrows m) (fun r => rsum (ncols m) (fun c => rpow (Rabs (get ROps m r c)) p))) (1 / p)%R /\
+  norm_p ROps (transpose ROps m) p = norm_p ROps m p.
+Proof. intros m p H1 H2. split; [exact (norm_p_view m p H1 H2) | exact (norm_p_transpose m p H1 H2)]. Qed.
+
+(* The vector-typed and the matrix-typed norm are twins: the matrix norm of the 1 x n matrix
+   from_row_vector v (and of the n x 1 column vector) is the same computation as the vector norm of v, for
+   each order the code distinguishes (+inf, -inf, finite p) and for norm2 — for every scalar type, hence
+   bit for bit in binary64. *)
+Theorem C03_norm_twin_agree : forall (T : Type) (K : Ops T) (v : list T) (p : T),
+  norm_p K (from_row_vector v) p = vnorm_p K v p /\
+  norm_pinf K (from_row_vector v) = vnorm_pinf K v /\
+  norm_ninf K (from_row_vector v) = vnorm_ninf K v /\
+  norm2 K (from_row_vector v) = vnorm2 K v /\
+  norm_p K (column_vector_from_vec v) p = vnorm_p K v p /\
+  norm_pinf K (column_vector_from_vec v) = vnorm_pinf K v /\
+  norm_ninf K (column_vector_from_vec v) = vnorm_ninf K v /\
+  norm2 K (column_vector_from_vec v) = vnorm2 K v.
+Proof. intros T K. exact (norm_twin K). Qed.
+
+(* ... and over R both twins are the extrema of |v_j|, the vector read through nth and the matrix through
+   its logical view (0, j) *)
+Theorem C03_norm_twin_values : forall (v : list R), v <> [] ->
+  exists hi lo,
+    vnorm_pinf ROps v = Some hi /\ norm_pinf ROps (from_row_vector v) = Some hi /\
+    vnorm_ninf ROps v = Some lo /\ norm_ninf ROps (from_row_vector v) = Some lo /\
+    (forall j, j < length v -> (lo <= Rabs (nth j v 0) <= hi)%R) /\
+    (forall j, j < length v -> (lo <= Rabs (get ROps (from_row_vector v) 0 j) <= hi)%R) /\
+    (exists j, j < length v /\ Rabs (nth j v 0%R) = hi /\ Rabs (get ROps (from_row_vector v) 0 j) = hi) /\
+    (exists j, j < length v /\ Rabs (nth j v 0%R) = lo /\ Rabs (get ROps (from_row_vector v) 0 j) = lo).
+Proof. exact norm_twin_R. Qed.
+
+(* ... and for EVERY well-formed matrix the matrix norm equals the vector norm of its row-major flattening
+   to_row_vector (the matrix method folds the column-major storage, the vector method the flattened data:
+   over R the order does not matter) *)
+Theorem C03_norm_flatten_twin : forall (m : dm R) (p : R), wf m ->
+  norm_pinf ROps m = vnorm_pinf ROps (to_row_vector ROps m) /\
+  norm_ninf ROps m = vnorm_ninf ROps (to_row_vector ROps m) /\
+  (p <> 0%R -> norm_p ROps m p = vnorm_p ROps (to_row_vector ROps m) p) /\
+  norm2 ROps m = vnorm2 ROps (to_row_vector ROps m).
+Proof. exact norm_flatten_twin. Qed.
+
+(* ================= max_diff over R ================= *)
+
+(* rejected (panic) exactly when the shapes differ; otherwise d = max_rc |a_rc - b_rc| on the logical view
+   (a bound that is attained; 0 for matrices without entries); symmetric; 0 exactly for equal matrices *)
+Theorem C03_max_diff_spec : forall (a b : dm R), wf a -> wf b ->
+  (max_diff ROps a b = None <-> (nrows a <> nrows b \/ ncols a <> ncols b)) /\
+  (nrows a = nrows b -> ncols a = ncols b ->
+     exists d, max_diff ROps a b = Some d /\ (0 <= d)%R /\
+       (forall r c, r < nrows a -> c < ncols a -> (Rabs (get ROps a r c - get ROps b r c) <= d)%R) /\
+       (0 < nrows a * ncols a ->
+          exists r c, r < nrows a /\ c < ncols a /\ Rabs (get ROps a r c - get ROps b r c) = d) /\
+       (nrows a * ncols a = 0 -> d = 0%R)) /\
+  max_diff ROps a b = max_diff ROps b a /\
+  (forall d, max_diff ROps a b = Some d -> (d = 0%R <-> a = b)).
+Proof.
+  intros a b Ha Hb. split; [exact (max_diff_none_iff a b Ha Hb)|]. split; [exact (max_diff_spec a b Ha Hb)|].
+  split; [exact (max_diff_sym a b Ha Hb)|]. intros d. exact (max_diff_zero_iff a b d Ha Hb).
+Qed.
+
+(* the hypotheses of the four theorems above are satisfiable and the operations behave as stated on
+   concrete data (a largest-magnitude entry that is negative; a minimum that is not the entry of smallest
+   magnitude) *)
+Example C03_ex_vector_ops :
+  vadd NatOps [1; 2; 3] [10; 20; 30] = Some [11; 22; 33] /\ vsub NatOps [5; 7] [1; 2] = Some [4; 5] /\
+  vmul NatOps [1; 2; 3] [4; 5; 6] = Some [4; 10; 18] /\ vadd NatOps [1; 2; 3] [1; 2] = None /\
+  vmul_scalar NatOps [1; 2; 3] 3 = [3; 6; 9] /\ vfill 3 7 = [7; 7; 7] /\
+  from_row_vector [4; 5; 6] = mkdm 1 3 [4; 5; 6] /\ zeros NatOps 2 2 = mkdm 2 2 [0; 0; 0; 0] /\
+  ones NatOps 1 2 = mkdm 1 2 [1; 1].
+Proof. exact vec_ops_ex. Qed.
+Example C03_ex_vector_norms :
+  vnorm_pinf ROps [-7; 2]%R = Some 7%R /\ vnorm_ninf ROps [1; -5; 3]%R = Some 1%R /\
+  vnorm_p ROps [3; -4]%R 1%R = 7%R /\ vnorm_p ROps [3; -4]%R 2%R = 5%R.
+Proof. exact vnorm_ex. Qed.
+Example C03_ex_max_diff :
+  max_diff ROps ex23 (transpose ROps ex23) = None /\ max_diff ROps ex23 ex23 = Some 0%R /\
+  exists d, max_diff ROps ex23 (mkdm 2 3 [1; 4; 2; 8; 3; 5]%R) = Some d /\ d = 3%R.
+Proof. exact max_diff_ex. Qed.
